@@ -150,7 +150,7 @@ def _same_named_classes():
     src = "from dataclasses import dataclass\nfrom models.zoo import VBase\n\n@dataclass(frozen=True)\nclass VSameName(VBase):\n    v: int = 0\n    kid: VBase | None = None\n"
     out = []
     for _ in range(2):
-        exec(compile(src, "vgen_samename", "exec"), mod.__dict__)
+        exec(compile(src, "vgen_samename", "exec", dont_inherit=True), mod.__dict__)
         out.append(mod.__dict__["VSameName"])
     return out
 
